@@ -31,7 +31,21 @@ func runVar(kind int, seed int64) []string {
 	w := Win{Abs: true}
 	z := r.In(3, 24)
 	n := int64(1) << uint(z)
-	id := func() ID { return ID{z, r.In(0, n-1), r.In(0, n-1), z, r.In(-n, n-1)} }
+	// a third of the voxels lie on an edge of the world (first / last column or row, lowest / highest layer): calls that
+	// wrap around it take other paths, and concurrent callers do so at different zooms
+	id := func() ID {
+		x, y, f := r.In(0, n-1), r.In(0, n-1), r.In(-n, n-1)
+		if r.Chance(0.3) {
+			x = r.Pick(0, n-1)
+		}
+		if r.Chance(0.3) {
+			y = r.Pick(0, n-1)
+		}
+		if r.Chance(0.15) {
+			f = r.Pick(-n, n-1)
+		}
+		return ID{z, x, y, z, f}
+	}
 	ids := func(k int) []string {
 		out := make([]string, k)
 		for i := range out {
